@@ -13,3 +13,13 @@ func verifGate(p *Changes, dir string, n int) {
 		f(p, dir, n)
 	}
 }
+
+// VerifPreLock is a verification hook (build tag verif). When set, FileChanged and Fetch
+// call it immediately before p.mutex.Lock(). It may only delay the caller (gate / yield).
+var VerifPreLock func(p *Changes)
+
+func verifPreLock(p *Changes) {
+	if f := VerifPreLock; f != nil {
+		f(p)
+	}
+}
